@@ -122,6 +122,13 @@ class TrX(pyz.Tr):
         if isinstance(e, ast.Tuple) and e.elts and all(
                 isinstance(x, ast.Constant) and isinstance(x.value, str) for x in e.elts):
             return "[%s]%%string" % "; ".join('"%s"' % x.value for x in e.elts), "STRS"
+        if isinstance(e, ast.Tuple) and len(e.elts) == 4:
+            parts = []
+            for x in e.elts:
+                t, ty = self.expr(x, env)
+                self.need(ty, "L", e)
+                parts.append(t)
+            return "((%s, %s), (%s, %s))" % tuple(parts), "P4"
         if isinstance(e, ast.Name) and e.id not in env and e.id in self.cfg.get("consts", {}):
             return self.cfg["consts"][e.id]
         if isinstance(e, ast.Attribute):
@@ -135,7 +142,7 @@ class TrX(pyz.Tr):
             if (tv, e.attr) in table:
                 f, ty = table[(tv, e.attr)]
                 return f % v, ty
-            raise Unsupported("attribute %s of a value of type %s" % (e.attr, tv))
+            return super().expr(e, env)
         if isinstance(e, ast.Compare) and len(e.ops) == 1:
             op, l_, r_ = e.ops[0], e.left, e.comparators[0]
             # type(index) in TYPES / type(index) is (not) T
@@ -442,6 +449,9 @@ class TrX(pyz.Tr):
             if isinstance(tg, ast.Name) and isinstance(s.value, ast.IfExp) \
                     and pyz._is_string_expr(s.value.body) and pyz._is_string_expr(s.value.orelse):
                 return self.block(rest, env)     # message text
+            if isinstance(tg, ast.Name) and pyz._is_plain_data(s.value) \
+                    and not isinstance(s.value, (ast.Name, ast.Constant)):
+                return super().block(stmts, env)
             if isinstance(tg, ast.Name):
                 t, ty = self.expr(s.value, env) if not pyz._is_string_expr(s.value) else (None, None)
                 if t is not None and is_r(ty) and ty not in ("RZ", "RL", "RV", "RLP", "RU"):
@@ -498,14 +508,6 @@ class TrX(pyz.Tr):
                     b, tb = "(Some %s)" % b, "OS"
                 self.need(tb, "OS", s)
                 return "(Ok (%s, %s))" % (a, b), "RYX"
-            if self.kind == "rfun" and self.cfg.get("ret") == "P4" and isinstance(s.value, ast.Tuple) \
-                    and len(s.value.elts) == 4:
-                parts = []
-                for x in s.value.elts:
-                    t, ty = self.expr(x, env)
-                    self.need(ty, "L", s)
-                    parts.append(t)
-                return "(Ok ((%s, %s), (%s, %s)))" % tuple(parts), "RP4"
             if self.kind in ("fun", "rfun"):
                 t, ty = self.expr(s.value, env)
                 want = self.cfg.get("ret", "Z")
